@@ -1,0 +1,101 @@
+//! Verification hooks. Only compiled with `--cfg midnight_zk_verif`; the
+//! shipped library never contains this module.
+//!
+//! The hook lets a test harness play a *Byzantine prover*: it observes and
+//! may replace the value of any advice cell at the moment the witness
+//! generator assigns it through [`crate::circuit::Region::assign_advice`].
+//! Both the value written to the table and the value carried by the returned
+//! `AssignedCell` are the replaced one, so later witness computations continue
+//! from it.
+//!
+//! State is thread-local. Cells are addressed by
+//! `(advice column index, n-th closure invocation on that column since
+//! `begin_pass`)`.
+#![allow(unsafe_code, missing_docs, missing_debug_implementations)]
+use std::{any::Any, cell::RefCell, collections::HashMap};
+
+use ff::Field;
+
+use crate::circuit::Value;
+
+/// Replaces a field value in place (the `dyn Any` is the circuit field `F`).
+pub type Mutator = Box<dyn Fn(&mut dyn Any)>;
+/// Observes `(column, ordinal, honest value)`.
+pub type Recorder = Box<dyn Fn(usize, usize, &dyn Any)>;
+
+#[derive(Default)]
+struct State {
+    counters: HashMap<usize, usize>,
+    plan: HashMap<(usize, usize), Mutator>,
+    recorder: Option<Recorder>,
+    fired: usize,
+    total: usize,
+}
+
+thread_local! { static STATE: RefCell<State> = RefCell::new(State::default()); }
+
+/// Resets the per-column ordinals (call at the start of every synthesis pass).
+pub fn begin_pass() {
+    STATE.with(|s| s.borrow_mut().counters.clear());
+}
+
+/// Installs a fault plan and an optional recorder on the current thread.
+pub fn install(plan: HashMap<(usize, usize), Mutator>, recorder: Option<Recorder>) {
+    STATE.with(|s| {
+        let mut s = s.borrow_mut();
+        *s = State::default();
+        s.plan = plan;
+        s.recorder = recorder;
+    });
+}
+
+/// Removes plan and recorder; returns `(faults fired, assignments seen)`.
+pub fn clear() -> (usize, usize) {
+    STATE.with(|s| {
+        let mut s = s.borrow_mut();
+        let r = (s.fired, s.total);
+        *s = State::default();
+        r
+    })
+}
+
+pub(crate) fn on_assign<VR, F: Field>(col: usize, v: Value<VR>) -> Value<VR> {
+    if std::any::type_name::<VR>() != std::any::type_name::<F>()
+        || std::mem::size_of::<VR>() != std::mem::size_of::<F>()
+        || std::mem::align_of::<VR>() != std::mem::align_of::<F>()
+    {
+        return v;
+    }
+    STATE.with(|s| {
+        let Ok(mut s) = s.try_borrow_mut() else { return v };
+        if s.plan.is_empty() && s.recorder.is_none() {
+            return v;
+        }
+        let ord = {
+            let c = s.counters.entry(col).or_insert(0);
+            let o = *c;
+            *c += 1;
+            o
+        };
+        s.total += 1;
+        let s = &mut *s;
+        let mut fired = false;
+        let out = v.map(|mut x| {
+            // SAFETY: VR and F are the same type (name, size and alignment
+            // checked above).
+            let xf: &mut F = unsafe { &mut *(&mut x as *mut VR as *mut F) };
+            if let Some(rec) = &s.recorder {
+                rec(col, ord, xf as &dyn Any);
+            }
+            if let Some(m) = s.plan.get(&(col, ord)) {
+                m(xf as &mut dyn Any);
+                fired = true;
+            }
+            x
+        });
+        if fired {
+            s.fired += 1;
+        }
+        out
+    })
+}
